@@ -9,8 +9,10 @@ import (
 	"math/rand"
 	"os"
 	"strconv"
+	"strings"
 	"sync"
 
+	"github.com/gethiox/HIDI/internal/pkg/midi"
 	"github.com/gethiox/HIDI/internal/pkg/midi/device/config"
 )
 
@@ -156,6 +158,52 @@ func cmdNotes(args []string) error {
 	}
 	for n := 0; n < 128; n++ {
 		emit(noteLine{Ev: "n2s", N: n, Pitch: config.NoteToPitch(byte(n)), Oct: config.NoteToOctave(byte(n))})
+	}
+	// the name as the application displays it (midi.Event.String, what the log and the user interface show), alone and
+	// from eight goroutines at once (every device formats its own events): blanks removed it must be the note's name
+	display := func(n int) string {
+		s := midi.NoteEvent(midi.NoteOn, 0, byte(n), 1).String()
+		const head = "Note On : "
+		if !strings.HasPrefix(s, head) || len(s) < len(head)+4 {
+			return "?" + s
+		}
+		return strings.ReplaceAll(s[len(head):len(head)+4], " ", "")
+	}
+	for n := 0; n < 128; n++ {
+		emit(noteLine{Ev: "disp", N: n, S: display(n)})
+	}
+	var dwg sync.WaitGroup
+	var dmu sync.Mutex
+	wrong := map[int]string{}
+	right := map[int]string{}
+	for g := 0; g < 8; g++ {
+		dwg.Add(1)
+		go func(g int) {
+			defer dwg.Done()
+			for r := 0; r < 300; r++ {
+				for i := 0; i < 128; i++ {
+					n := (i*37 + g*11 + r) % 128
+					want := config.NoteToPitch(byte(n)) + strconv.Itoa(config.NoteToOctave(byte(n)))
+					if s := display(n); s != want {
+						dmu.Lock()
+						wrong[n] = s
+						dmu.Unlock()
+					} else if r == 0 {
+						dmu.Lock()
+						right[n] = s
+						dmu.Unlock()
+					}
+				}
+			}
+		}(g)
+	}
+	dwg.Wait()
+	for n := 0; n < 128; n++ {
+		s, bad := wrong[n]
+		if !bad {
+			s = right[n]
+		}
+		emit(noteLine{Ev: "disp", N: n, S: s, Msg: "concurrent"})
 	}
 	emit(noteLine{Ev: "summary", Tried: tried})
 	return nil
